@@ -216,7 +216,7 @@ Section Conform.
   Lemma const_ty_conf_n n : forall t c, const_ty_n E n t = Some c -> conf_g o E c t = true.
   Proof.
     induction n as [|n IHn].
-    all: induction t as [ | | | | | | m' | k' | e' | t' IHt | fr' t' IHt | t' IHt | ts IHts | pre IHpre mid IHmid IHmide post IHpost | kt IHkt vt IHvt | t' IHt | c' | c' | c' ]
+    all: induction t as [ | | | | | | m' | k' | e' | t' IHt | fr' t' IHt | t' IHt | ts IHts | pre IHpre mid IHmid IHmide post IHpost | kt IHkt vt IHvt | t' IHt | c' | c' | c' | t' IHt | kt IHkt vt IHvt | bx t' IHt ]
       using sty_ind'; intros c H; rewrite const_ty_n_unfold in H; try discriminate H.
     all: try (inversion H; reflexivity).
     all: try solve [
@@ -367,12 +367,29 @@ Section Conform.
     rewrite forallb_forall in Hd. apply Hd. exact Hf.
   Qed.
 
+  (* boxed collections: the class around a conforming list / dict conforms (the content [[{}]] of a ChainMap is
+     normalised to [[]]: an empty list conforms wherever a list does) *)
+  Lemma conf_vlist_nil l : forall t, conf_g o E (VList l) t = true -> conf_g o E (VList []) t = true.
+  Proof.
+    induction t; intros H; rewrite conf_unfold in H; rewrite conf_unfold; try discriminate H; try reflexivity.
+    cbn [is_none orb] in *. apply IHt. exact H.
+  Qed.
+
+  Lemma box_conf b r0 t : conf_g o E r0 t = true -> conf_g o E (box_val b r0) (SBox b t) = true.
+  Proof.
+    intros H. unfold box_val. rewrite conf_unfold. rewrite !String.eqb_refl. cbn [andb]. unfold chain_canon.
+    destruct b; cbn [is_chain andb negb]; try exact H.
+    destruct r0 as [ | | | | | | l | | | | | | | | ]; try exact H.
+    destruct l as [|x l']; try exact H. destruct x as [ | | | | | | | | | kvs | | | | | ]; destruct l'; try exact H.
+    all: destruct kvs; try exact H. apply (conf_vlist_nil _ _ H).
+  Qed.
+
   Lemma dec_str_conf_gen n :
     (forall n', n = S n' -> forall t s r, ref_dec_str_l E P n' t s = Ok r -> conf_g o E r t = true) ->
     forall t s r, ref_dec_str_l E P n t s = Ok r -> conf_g o E r t = true.
   Proof.
     intros Hprev.
-    induction t as [ | | | | | | m' | k' | e' | t' IHt | fr' t' IHt | t' IHt | ts IHts | pre IHpre mid IHmid IHmide post IHpost | kt IHkt vt IHvt | t' IHt | c' | c' | c' ]
+    induction t as [ | | | | | | m' | k' | e' | t' IHt | fr' t' IHt | t' IHt | ts IHts | pre IHpre mid IHmid IHmide post IHpost | kt IHkt vt IHvt | t' IHt | c' | c' | c' | t' IHt | kt IHkt vt IHvt | bx t' IHt ]
       using sty_ind'; intros s r H; rewrite (ref_dec_str_unfold E P false) in H.
     - rewrite conf_unfold. reflexivity.
     - inversion H. reflexivity.
@@ -419,6 +436,13 @@ Section Conform.
       + intros f x y _ Hy. apply (Hprev n' eq_refl _ _ _ Hy).
     - (* TypedDict from a str *)
       destruct (sfind E _ c') as [k|] eqn:Ef; [|discriminate H]. apply (td_nondict_conf _ _ _ Ef H).
+    - (* Sequence *)
+      destruct (mapM _ _) as [l|] eqn:Em; [|discriminate]. cbn [bind] in H. inversion H. rewrite conf_unfold.
+      apply (forallb_mapM_res _ _ _ _ (fun x y _ Hy => IHt x y Hy) Em).
+    - discriminate.
+    - (* boxed collection *)
+      destruct (ref_dec_str_l E P n t' s) as [r0|] eqn:Er; [|discriminate H]. cbn [bind] in H. inversion H.
+      apply box_conf. apply (IHt s r0 Er).
   Qed.
 
   Lemma dec_str_conf n : forall t s r, ref_dec_str_l E P n t s = Ok r -> conf_g o E r t = true.
@@ -514,7 +538,7 @@ Section Conform.
   Proof.
     induction d as [ | b | z | f | s | m b | l IHl | l IHl | fr l IHl | kvs IHk | c fs IHf | e m | k w | c l IHl | tg ]
       using pv_rect'; unfold conf_ok.
-    all: intros t; induction t as [ | | | | | | m' | k' | e' | t' IHt | fr' t' IHt | t' IHt | ts | pre mid IHmid post | kt IHkt vt IHvt | t' IHt | c' | c' | c' ];
+    all: intros t; induction t as [ | | | | | | m' | k' | e' | t' IHt | fr' t' IHt | t' IHt | ts | pre mid IHmid post | kt IHkt vt IHvt | t' IHt | c' | c' | c' | t' IHt | kt IHkt vt IHvt | bx t' IHt ];
       intros r H; pose proof H as H0; rewrite (ref_dec_unfold E P false) in H.
     (* NamedTuple / TypedDict *)
     all: try solve [ refine (named_conf _ c' r _ H0); cbn; intros x Hx; first [ destruct Hx | apply (Forall_In _ _ IHl x Hx) ] ].
@@ -538,7 +562,7 @@ Section Conform.
                      first [ inversion H; reflexivity | rewrite (IHt r H); apply orb_true_r ] ].
     (* str inputs *)
     all: try solve [ first [ apply (dec_str_conf _ (SList t') _ _ H) | apply (dec_str_conf _ (SSet fr' t') _ _ H)
-                           | apply (dec_str_conf _ (STupleVar t') _ _ H) | apply (dec_str_conf _ (STupleFix ts) _ _ H) ] ].
+                           | apply (dec_str_conf _ (STupleVar t') _ _ H) | apply (dec_str_conf _ (STupleFix ts) _ _ H) | apply (dec_str_conf _ (SSeq t') _ _ H) ] ].
     (* fixed tuple / dataclass given a non-sequence / non-mapping *)
     all: try solve [ destruct (none_tail_t E ts) as [r0|] eqn:En; [|discriminate H]; cbn [bind] in H; inversion H;
                      rewrite conf_unfold; apply (none_tail_conf ts r0 En) ].
@@ -554,6 +578,21 @@ Section Conform.
                      try (destruct (forallb hashable l0); [|discriminate H]); inversion H; rewrite conf_unfold;
                      try (rewrite eqb_reflx; cbn [andb]; apply forallb_set_of_list);
                      apply (forallb_mapM_res _ _ _ _ (fun (p: pv * pv) y Hp => match p as p0 return In p0 kvs -> (let (k, _) := p0 in ref_dec_l E P k t') = Ok y -> conf_g o E y t' = true with (k, x) => fun Hp' Hy => proj1 (Forall_In _ _ IHk (k, x) Hp') t' y Hy end Hp) Em) ].
+    (* dict / Mapping *)
+    all: try solve [
+      match type of H with (bind ?X _ = _) => destruct X as [r0|] eqn:Em end; [|discriminate H]; cbn [bind] in H; inversion H;
+      rewrite conf_unfold; rewrite nodup_dict_of_pairs; cbn [andb];
+      apply (forallb_dict_of_pairs _ r0 (fun _ _ _ _ => or_intror I) (fun k => conf_g o E k kt) (fun x => conf_g o E x vt) (fun k v => eq_refl));
+      refine (forallb_mapM_res _ _ _ _ _ Em); intros [k x] [k' x'] Hp Hy;
+      destruct (Forall_In _ _ IHk (k, x) Hp) as [Qk Qx]; cbn [fst snd] in Qk, Qx;
+      destruct (ref_dec_l E P k kt) as [k1|] eqn:Ek; [|discriminate Hy]; cbn [bind] in Hy;
+      destruct (ref_dec_l E P x vt) as [x1|] eqn:Ex; [|discriminate Hy]; cbn [bind] in Hy;
+      destruct (hashable k1); [|discriminate Hy]; inversion Hy; subst;
+      rewrite (Qk kt k' Ek), (Qx vt x' Ex); reflexivity ].
+    (* boxed collections *)
+    all: try solve [
+      match type of H with (bind ?X _ = _) => destruct X as [r0|] eqn:Er end; [|discriminate H]; cbn [bind] in H; inversion H;
+      apply box_conf; apply (IHt r0 eq_refl) ].
     - (* VList, STupleFix *)
       match type of H with (bind ?X _ = _) => destruct X as [r0|] eqn:Em end; [|discriminate H]. cbn [bind] in H. inversion H.
       rewrite conf_unfold. clear H H1. revert ts r0 Em. induction l as [|x l IHl']; intros ts r0 Em.
@@ -572,16 +611,6 @@ Section Conform.
         destruct (ref_dec_l E P x t1) as [y|] eqn:Ey; [|discriminate Em]. cbn [bind] in Em.
         match type of Em with (bind ?X _ = _) => destruct X as [ys|] eqn:Eys end; [|discriminate Em].
         inversion Em; subst. rewrite (Qx t1 y Ey). cbn [andb]. apply (IHl' Ql ts ys Eys).
-    - (* VDict, SDict *)
-      match type of H with (bind ?X _ = _) => destruct X as [r0|] eqn:Em end; [|discriminate H]. cbn [bind] in H. inversion H.
-      rewrite conf_unfold. rewrite nodup_dict_of_pairs. cbn [andb].
-      apply (forallb_dict_of_pairs _ r0 (fun _ _ _ _ => or_intror I) (fun k => conf_g o E k kt) (fun x => conf_g o E x vt) (fun k v => eq_refl)).
-      refine (forallb_mapM_res _ _ _ _ _ Em). intros [k x] [k' x'] Hp Hy.
-      destruct (Forall_In _ _ IHk (k, x) Hp) as [Qk Qx]. cbn [fst snd] in Qk, Qx.
-      destruct (ref_dec_l E P k kt) as [k1|] eqn:Ek; [|discriminate Hy]. cbn [bind] in Hy.
-      destruct (ref_dec_l E P x vt) as [x1|] eqn:Ex; [|discriminate Hy]. cbn [bind] in Hy.
-      destruct (hashable k1); [|discriminate Hy]. inversion Hy; subst.
-      rewrite (Qk kt k' Ek), (Qx vt x' Ex). reflexivity.
     - (* VDict, SData *)
       destruct (sfind E _ c') as [k0|] eqn:Ef; [|discriminate H]. cbv zeta in H.
       match type of H with (bind ?X _ = _) => destruct X as [r0|] eqn:Em end; [|discriminate H]. cbn [bind] in H. inversion H.
